@@ -271,9 +271,9 @@ func (m *c13Machine) hygiene() error {
 				serr = pbt.Failf("C13/service-queue", "paused request context %s has %d queue entries %v", id, n, entries[id.String()])
 			}
 		case servicetypes.COMPLETED:
-			// a killed context keeps the expiry entry of its last batch until that height (its active requests
-			// are refunded there); more than one entry, or a new-batch entry, would be a leak
-			if n > 1 || (n == 1 && strings.HasPrefix(entries[id.String()][0], "new-batch")) {
+			// a killed context keeps the entry of its last batch (expiry) or of its next batch (new-batch) until that
+			// height, where the end blocker drops it; more than one entry would be a leak
+			if n > 1 {
 				serr = pbt.Failf("C13/service-queue", "completed request context %s still has queue entries %v", id, entries[id.String()])
 			}
 		}
